@@ -451,3 +451,239 @@ Check Proofs_WholeSections.sections_apply_nonvacuous.
 Check Proofs_WholeGit.git_patch_applies_nonvacuous.
 Check Proofs_Whole.top_insertion_end_to_end.
 Check Proofs_Whole.first_line_removal_end_to_end.
+
+(* ===== merged from Properties_WholeOther.v ===== *)
+From PatchV Require Import Base Lines Hunk Locator Formatter Options Applier LineParser Parser World Driver
+     Spec_Locate Spec_Apply Spec_Names Proofs_Unified Proofs_Filler Proofs_Names Proofs_Conf Proofs_Reverse Proofs_Sections
+     Proofs_Context Spec_Normal Proofs_Normal Proofs_Whole Proofs_WholeOther.
+
+(* the context reader regroups the lines of a change group (deletions first); the hunks it hands over tile A and B as the
+   written ones did *)
+Theorem conforming_norm : forall A B hs, Conforming A B hs -> Conforming A B (map norm_hunk hs).
+Proof. exact Proofs_WholeOther.conforming_norm. Qed.
+Print Assumptions conforming_norm.
+
+(* ================= context format ================= *)
+Theorem context_patch_applies_end_to_end : forall o f0 fl oldname t1 newname t2 h1 hs tail fname A B w data mode,
+  plain_options o -> reverse_patch_opt o = false ->
+  format_from_options o = Ok f0 -> f0 = FUnknown \/ f0 = FContext ->
+  Forall (Filler (strip_size o) (empty_patch f0)) fl -> Forall clean fl ->
+  plain_name oldname -> plain_name newname -> clean (oldname ++ tab_time t1) -> clean (newname ++ tab_time t2) ->
+  stripped oldname (strip_size o) = fname -> stripped newname (strip_size o) = fname ->
+  fname <> [] /\ ~ In 47%N fname ->
+  Forall wf_hunk_c (h1 :: hs) -> Conforming A B (h1 :: hs) ->
+  remove_empty_files o <> OBYes \/ lines_bytes (newline_output o) B <> [] ->
+  (Z.of_nat (length A) < MAXZ)%Z ->
+  tail_ok_c tail -> (tail <> [] -> ends_here o f0 (stream_of tail) = true) ->
+  fault w = None -> lookup (fs w) fname = Some (Reg data mode) -> (mode < 4096)%N -> owner_r mode = true -> owner_w mode = true ->
+  split_lines data = A ->
+  exists w',
+    process_patch o (join_lines (fl ++ [bs "*** " ++ oldname ++ tab_time t1; bs "--- " ++ newname ++ tab_time t2]) ++
+                     emit_c (h1 :: hs) ++ tail) w = (Ok (0, []), w') /\
+    lookup (fs w') fname = Some (Reg (lines_bytes (newline_output o) B) mode) /\
+    (forall q, q <> fname -> lookup (fs w') q = lookup (fs w) q) /\
+    fault w' = None /\ umask w' = umask w.
+Proof. exact Proofs_WholeOther.context_patch_applies_end_to_end. Qed.
+Print Assumptions context_patch_applies_end_to_end.
+
+Theorem context_patch_applies_end_to_end_index : forall o f0 fl ixname ixt fl2 oldname t1 newname t2 h1 hs tail fname A B w data mode,
+  plain_options o -> reverse_patch_opt o = false ->
+  format_from_options o = Ok f0 -> f0 = FUnknown \/ f0 = FContext ->
+  Forall (Filler (strip_size o) (empty_patch f0)) fl -> Forall clean fl ->
+  plain_name ixname -> clean (ixname ++ tab_time ixt) ->
+  Forall (Filler (strip_size o) (set_index (empty_patch f0) (stripped ixname (strip_size o)))) fl2 -> Forall clean fl2 ->
+  plain_name oldname -> plain_name newname -> clean (oldname ++ tab_time t1) -> clean (newname ++ tab_time t2) ->
+  stripped oldname (strip_size o) = fname -> stripped newname (strip_size o) = fname ->
+  fname <> [] /\ ~ In 47%N fname ->
+  Forall wf_hunk_c (h1 :: hs) -> Conforming A B (h1 :: hs) ->
+  remove_empty_files o <> OBYes \/ lines_bytes (newline_output o) B <> [] ->
+  (Z.of_nat (length A) < MAXZ)%Z ->
+  tail_ok_c tail -> (tail <> [] -> ends_here o f0 (stream_of tail) = true) ->
+  fault w = None -> lookup (fs w) fname = Some (Reg data mode) -> (mode < 4096)%N -> owner_r mode = true -> owner_w mode = true ->
+  split_lines data = A ->
+  exists w',
+    process_patch o (join_lines ((fl ++ [bs "Index: " ++ ixname ++ tab_time ixt] ++ fl2) ++
+                                 [bs "*** " ++ oldname ++ tab_time t1; bs "--- " ++ newname ++ tab_time t2]) ++
+                     emit_c (h1 :: hs) ++ tail) w = (Ok (0, []), w') /\
+    lookup (fs w') fname = Some (Reg (lines_bytes (newline_output o) B) mode) /\
+    (forall q, q <> fname -> lookup (fs w') q = lookup (fs w) q) /\
+    fault w' = None /\ umask w' = umask w.
+Proof. exact Proofs_WholeOther.context_patch_applies_end_to_end_index. Qed.
+Print Assumptions context_patch_applies_end_to_end_index.
+
+Theorem context_patch_reverses_end_to_end : forall o f0 fl oldname t1 newname t2 h1 hs tail fname A B w data mode,
+  plain_options o -> reverse_patch_opt o = true ->
+  format_from_options o = Ok f0 -> f0 = FUnknown \/ f0 = FContext ->
+  Forall (Filler (strip_size o) (empty_patch f0)) fl -> Forall clean fl ->
+  plain_name oldname -> plain_name newname -> clean (oldname ++ tab_time t1) -> clean (newname ++ tab_time t2) ->
+  stripped oldname (strip_size o) = fname -> stripped newname (strip_size o) = fname ->
+  fname <> [] /\ ~ In 47%N fname ->
+  Forall wf_hunk_c (h1 :: hs) -> Conforming A B (h1 :: hs) ->
+  remove_empty_files o <> OBYes \/ lines_bytes (newline_output o) A <> [] ->
+  (Z.of_nat (length B) < MAXZ)%Z ->
+  tail_ok_c tail -> (tail <> [] -> ends_here o f0 (stream_of tail) = true) ->
+  fault w = None -> lookup (fs w) fname = Some (Reg data mode) -> (mode < 4096)%N -> owner_r mode = true -> owner_w mode = true ->
+  split_lines data = B ->
+  exists w',
+    process_patch o (join_lines (fl ++ [bs "*** " ++ oldname ++ tab_time t1; bs "--- " ++ newname ++ tab_time t2]) ++
+                     emit_c (h1 :: hs) ++ tail) w = (Ok (0, []), w') /\
+    lookup (fs w') fname = Some (Reg (lines_bytes (newline_output o) A) mode) /\
+    (forall q, q <> fname -> lookup (fs w') q = lookup (fs w) q) /\
+    fault w' = None /\ umask w' = umask w.
+Proof. exact Proofs_WholeOther.context_patch_reverses_end_to_end. Qed.
+Print Assumptions context_patch_reverses_end_to_end.
+
+Theorem run_patch_context_end_to_end : forall o f0 fl oldname t1 newname t2 h1 hs tail fname A B w data mode,
+  (patch_file_path o = [] \/ patch_file_path o = bs "-") ->
+  plain_options o -> reverse_patch_opt o = false ->
+  format_from_options o = Ok f0 -> f0 = FUnknown \/ f0 = FContext ->
+  Forall (Filler (strip_size o) (empty_patch f0)) fl -> Forall clean fl ->
+  plain_name oldname -> plain_name newname -> clean (oldname ++ tab_time t1) -> clean (newname ++ tab_time t2) ->
+  stripped oldname (strip_size o) = fname -> stripped newname (strip_size o) = fname ->
+  fname <> [] /\ ~ In 47%N fname ->
+  Forall wf_hunk_c (h1 :: hs) -> Conforming A B (h1 :: hs) ->
+  remove_empty_files o <> OBYes \/ lines_bytes (newline_output o) B <> [] ->
+  (Z.of_nat (length A) < MAXZ)%Z ->
+  tail_ok_c tail -> (tail <> [] -> ends_here o f0 (stream_of tail) = true) ->
+  fault w = None -> lookup (fs w) fname = Some (Reg data mode) -> (mode < 4096)%N -> owner_r mode = true -> owner_w mode = true ->
+  split_lines data = A ->
+  exists w',
+    run_patch o (join_lines (fl ++ [bs "*** " ++ oldname ++ tab_time t1; bs "--- " ++ newname ++ tab_time t2]) ++
+                 emit_c (h1 :: hs) ++ tail) w = mkRR 0 [] w' /\
+    lookup (fs w') fname = Some (Reg (lines_bytes (newline_output o) B) mode) /\
+    (forall q, q <> fname -> lookup (fs w') q = lookup (fs w) q).
+Proof. exact Proofs_WholeOther.run_patch_context_end_to_end. Qed.
+Print Assumptions run_patch_context_end_to_end.
+
+(* ================= normal format ================= *)
+Theorem normal_patch_applies_end_to_end : forall o f0 fl ixname ixt fl2 h1 hs tail fname A B w data mode,
+  plain_options o -> reverse_patch_opt o = false ->
+  format_from_options o = Ok f0 -> f0 = FUnknown \/ f0 = FNormal ->
+  Forall (Filler (strip_size o) (empty_patch f0)) fl -> Forall clean fl ->
+  plain_name ixname -> clean (ixname ++ tab_time ixt) ->
+  Forall (Filler (strip_size o) (set_index (empty_patch f0) (stripped ixname (strip_size o)))) fl2 -> Forall clean fl2 ->
+  stripped ixname (strip_size o) = fname ->
+  fname <> [] /\ ~ In 47%N fname ->
+  Forall wf_hunk_n (h1 :: hs) -> Conforming A B (h1 :: hs) ->
+  remove_empty_files o <> OBYes \/ lines_bytes (newline_output o) B <> [] ->
+  (Z.of_nat (length A) < MAXZ)%Z ->
+  tail_ok_n tail -> ends_here o f0 (after_n tail) = true ->
+  fault w = None -> lookup (fs w) [] = None ->
+  lookup (fs w) fname = Some (Reg data mode) -> (mode < 4096)%N -> owner_r mode = true -> owner_w mode = true ->
+  split_lines data = A ->
+  exists w',
+    process_patch o (join_lines (fl ++ [bs "Index: " ++ ixname ++ tab_time ixt] ++ fl2) ++ emit_normal (h1 :: hs) ++ tail) w = (Ok (0, []), w') /\
+    lookup (fs w') fname = Some (Reg (lines_bytes (newline_output o) B) mode) /\
+    (forall q, q <> fname -> lookup (fs w') q = lookup (fs w) q) /\
+    fault w' = None /\ umask w' = umask w.
+Proof. exact Proofs_WholeOther.normal_patch_applies_end_to_end. Qed.
+Print Assumptions normal_patch_applies_end_to_end.
+
+Theorem normal_patch_applies_operand : forall o f0 fl h1 hs tail fname A B w data mode,
+  plain_options_ftp o -> file_to_patch o = fname -> reverse_patch_opt o = false ->
+  format_from_options o = Ok f0 -> f0 = FUnknown \/ f0 = FNormal ->
+  Forall (Filler (strip_size o) (empty_patch f0)) fl -> Forall clean fl ->
+  fname <> [] /\ ~ In 47%N fname ->
+  Forall wf_hunk_n (h1 :: hs) -> Conforming A B (h1 :: hs) ->
+  remove_empty_files o <> OBYes \/ lines_bytes (newline_output o) B <> [] ->
+  (Z.of_nat (length A) < MAXZ)%Z ->
+  tail_ok_n tail -> ends_here o f0 (after_n tail) = true ->
+  fault w = None -> lookup (fs w) fname = Some (Reg data mode) -> (mode < 4096)%N -> owner_r mode = true -> owner_w mode = true ->
+  split_lines data = A ->
+  exists w',
+    process_patch o (join_lines fl ++ emit_normal (h1 :: hs) ++ tail) w = (Ok (0, []), w') /\
+    lookup (fs w') fname = Some (Reg (lines_bytes (newline_output o) B) mode) /\
+    (forall q, q <> fname -> lookup (fs w') q = lookup (fs w) q) /\
+    fault w' = None /\ umask w' = umask w.
+Proof. exact Proofs_WholeOther.normal_patch_applies_operand. Qed.
+Print Assumptions normal_patch_applies_operand.
+
+Theorem normal_patch_reverses_end_to_end : forall o f0 fl ixname ixt fl2 h1 hs tail fname A B w data mode,
+  plain_options o -> reverse_patch_opt o = true ->
+  format_from_options o = Ok f0 -> f0 = FUnknown \/ f0 = FNormal ->
+  Forall (Filler (strip_size o) (empty_patch f0)) fl -> Forall clean fl ->
+  plain_name ixname -> clean (ixname ++ tab_time ixt) ->
+  Forall (Filler (strip_size o) (set_index (empty_patch f0) (stripped ixname (strip_size o)))) fl2 -> Forall clean fl2 ->
+  stripped ixname (strip_size o) = fname ->
+  fname <> [] /\ ~ In 47%N fname ->
+  Forall wf_hunk_n (h1 :: hs) -> Conforming A B (h1 :: hs) ->
+  remove_empty_files o <> OBYes \/ lines_bytes (newline_output o) A <> [] ->
+  (Z.of_nat (length B) < MAXZ)%Z ->
+  tail_ok_n tail -> ends_here o f0 (after_n tail) = true ->
+  fault w = None -> lookup (fs w) [] = None ->
+  lookup (fs w) fname = Some (Reg data mode) -> (mode < 4096)%N -> owner_r mode = true -> owner_w mode = true ->
+  split_lines data = B ->
+  exists w',
+    process_patch o (join_lines (fl ++ [bs "Index: " ++ ixname ++ tab_time ixt] ++ fl2) ++ emit_normal (h1 :: hs) ++ tail) w = (Ok (0, []), w') /\
+    lookup (fs w') fname = Some (Reg (lines_bytes (newline_output o) A) mode) /\
+    (forall q, q <> fname -> lookup (fs w') q = lookup (fs w) q) /\
+    fault w' = None /\ umask w' = umask w.
+Proof. exact Proofs_WholeOther.normal_patch_reverses_end_to_end. Qed.
+Print Assumptions normal_patch_reverses_end_to_end.
+
+Theorem normal_patch_reverses_operand : forall o f0 fl h1 hs tail fname A B w data mode,
+  plain_options_ftp o -> file_to_patch o = fname -> reverse_patch_opt o = true ->
+  format_from_options o = Ok f0 -> f0 = FUnknown \/ f0 = FNormal ->
+  Forall (Filler (strip_size o) (empty_patch f0)) fl -> Forall clean fl ->
+  fname <> [] /\ ~ In 47%N fname ->
+  Forall wf_hunk_n (h1 :: hs) -> Conforming A B (h1 :: hs) ->
+  remove_empty_files o <> OBYes \/ lines_bytes (newline_output o) A <> [] ->
+  (Z.of_nat (length B) < MAXZ)%Z ->
+  tail_ok_n tail -> ends_here o f0 (after_n tail) = true ->
+  fault w = None -> lookup (fs w) fname = Some (Reg data mode) -> (mode < 4096)%N -> owner_r mode = true -> owner_w mode = true ->
+  split_lines data = B ->
+  exists w',
+    process_patch o (join_lines fl ++ emit_normal (h1 :: hs) ++ tail) w = (Ok (0, []), w') /\
+    lookup (fs w') fname = Some (Reg (lines_bytes (newline_output o) A) mode) /\
+    (forall q, q <> fname -> lookup (fs w') q = lookup (fs w) q) /\
+    fault w' = None /\ umask w' = umask w.
+Proof. exact Proofs_WholeOther.normal_patch_reverses_operand. Qed.
+Print Assumptions normal_patch_reverses_operand.
+
+Theorem run_patch_normal_end_to_end : forall o f0 fl ixname ixt fl2 h1 hs tail fname A B w data mode,
+  (patch_file_path o = [] \/ patch_file_path o = bs "-") ->
+  plain_options o -> reverse_patch_opt o = false ->
+  format_from_options o = Ok f0 -> f0 = FUnknown \/ f0 = FNormal ->
+  Forall (Filler (strip_size o) (empty_patch f0)) fl -> Forall clean fl ->
+  plain_name ixname -> clean (ixname ++ tab_time ixt) ->
+  Forall (Filler (strip_size o) (set_index (empty_patch f0) (stripped ixname (strip_size o)))) fl2 -> Forall clean fl2 ->
+  stripped ixname (strip_size o) = fname ->
+  fname <> [] /\ ~ In 47%N fname ->
+  Forall wf_hunk_n (h1 :: hs) -> Conforming A B (h1 :: hs) ->
+  remove_empty_files o <> OBYes \/ lines_bytes (newline_output o) B <> [] ->
+  (Z.of_nat (length A) < MAXZ)%Z ->
+  tail_ok_n tail -> ends_here o f0 (after_n tail) = true ->
+  fault w = None -> lookup (fs w) [] = None ->
+  lookup (fs w) fname = Some (Reg data mode) -> (mode < 4096)%N -> owner_r mode = true -> owner_w mode = true ->
+  split_lines data = A ->
+  exists w',
+    run_patch o (join_lines (fl ++ [bs "Index: " ++ ixname ++ tab_time ixt] ++ fl2) ++ emit_normal (h1 :: hs) ++ tail) w = mkRR 0 [] w' /\
+    lookup (fs w') fname = Some (Reg (lines_bytes (newline_output o) B) mode) /\
+    (forall q, q <> fname -> lookup (fs w') q = lookup (fs w) q).
+Proof. exact Proofs_WholeOther.run_patch_normal_end_to_end. Qed.
+Print Assumptions run_patch_normal_end_to_end.
+
+Theorem run_patch_normal_operand : forall o f0 fl h1 hs tail fname A B w data mode,
+  (patch_file_path o = [] \/ patch_file_path o = bs "-") ->
+  plain_options_ftp o -> file_to_patch o = fname -> reverse_patch_opt o = false ->
+  format_from_options o = Ok f0 -> f0 = FUnknown \/ f0 = FNormal ->
+  Forall (Filler (strip_size o) (empty_patch f0)) fl -> Forall clean fl ->
+  fname <> [] /\ ~ In 47%N fname ->
+  Forall wf_hunk_n (h1 :: hs) -> Conforming A B (h1 :: hs) ->
+  remove_empty_files o <> OBYes \/ lines_bytes (newline_output o) B <> [] ->
+  (Z.of_nat (length A) < MAXZ)%Z ->
+  tail_ok_n tail -> ends_here o f0 (after_n tail) = true ->
+  fault w = None -> lookup (fs w) fname = Some (Reg data mode) -> (mode < 4096)%N -> owner_r mode = true -> owner_w mode = true ->
+  split_lines data = A ->
+  exists w',
+    run_patch o (join_lines fl ++ emit_normal (h1 :: hs) ++ tail) w = mkRR 0 [] w' /\
+    lookup (fs w') fname = Some (Reg (lines_bytes (newline_output o) B) mode) /\
+    (forall q, q <> fname -> lookup (fs w') q = lookup (fs w) q).
+Proof. exact Proofs_WholeOther.run_patch_normal_operand. Qed.
+Print Assumptions run_patch_normal_operand.
+
+(* non-vacuity: Proofs_WholeOther.context_patch_applies_nonvacuous / context_patch_reverses_nonvacuous (diff -c output of a two-hunk
+   change with time stamps, a mail signature after it, -p1, a tree with bystanders), normal_patch_applies_nonvacuous /
+   normal_patch_reverses_nonvacuous ("Index: f", two change groups, an empty line and text after them, -p0),
+   normal_patch_operand_nonvacuous (patch f < diff), normal_top_insertion_reverses ("0a1" with -R); each cross-checked by
+   vm_compute on run_patch (run_patch_context_same, run_patch_normal_same, ...). *)
